@@ -1017,3 +1017,132 @@ def oracle_C16(case: dict, real: dict, model: dict) -> List[str]:
                 elif o["invalid"]["err"]["e"] != "coercion" or sorted(map(str, o["invalid"]["err"]["compat"])) != ["list", "tuple"]:
                     out.append(f"{m}: tuple gate rejection is not a coercion error naming list and tuple")
     return out
+
+
+# ---------------------------------------------------------------------------------------------
+# C18 composition laws (model-free): the same validator in a wrapping context / refined
+
+
+def _ctx_wrappers(v: dict, x: dict, payload_hashable: bool) -> List[Tuple[str, dict, dict, Any]]:
+    """(name, wrapper validator description, wrapped input, path to the inner result)"""
+    K = {"t": "str", "s": [107]}
+    out = [
+        ("list", {"k": "list", "vid": 9001, "item": v, "preds": None, "apreds": None, "coerce": None},
+         {"t": "list", "oid": 9101, "xs": [x]}, ("xs", 0)),
+        ("utuple", {"k": "utuple", "vid": 9002, "item": v, "preds": None, "apreds": None, "coerce": None},
+         {"t": "tuple", "oid": 9102, "xs": [x]}, ("xs", 0)),
+        ("ntuple", {"k": "ntuple", "vid": 9003, "fields": [v], "oc": None, "lenPid": 9903, "coerce": None},
+         {"t": "tuple", "oid": 9103, "xs": [x]}, ("xs", 0)),
+        ("map", {"k": "map", "vid": 9004, "key": {"k": "always", "vid": 1}, "value": v, "preds": None, "apreds": None,
+                 "coerce": None}, {"t": "dict", "oid": 9104, "kvs": [[K, x]]}, ("kvs", 0)),
+        ("dictAny", {"k": "record", "vid": 9005, "kind": "dictAny", "keys": [K], "vals": [v], "reqs": [True],
+                     "knrVids": [9905], "oc": None, "aoc": None, "failUnknown": False},
+         {"t": "dict", "oid": 9105, "kvs": [[K, x]]}, ("kvs", 0)),
+        ("record", {"k": "record", "vid": 9006, "kind": "record", "keys": [K], "vals": [v], "reqs": [True], "oc": None,
+                    "aoc": None, "failUnknown": False, "into": {"id": 9906, "f": "tupleOf", "keys": [K]}},
+         {"t": "dict", "oid": 9106, "kvs": [[K, x]]}, ("xs", 0)),
+        ("maybe", {"k": "maybe", "vid": 9007, "inner": v}, {"t": "just", "oid": 9107, "v": x}, ("v", None)),
+        ("union1", {"k": "union", "vid": 9008, "vs": [v]}, x, None),
+        ("user", {"k": "user", "vid": 9009, "inner": v}, x, None),
+    ]
+    if payload_hashable:
+        out.append(("set", {"k": "set", "vid": 9010, "item": v, "preds": None, "apreds": None, "coerce": None},
+                    {"t": "set", "oid": 9110, "xs": [x]}, ("xs", 0)))
+    return out
+
+
+def oracle_C18(case: dict, real: dict, model: dict) -> List[str]:
+    from .genv import is_hashable_desc
+    out: List[str] = []
+    v, env, x = case["v"], case.get("env", []), real["xd"]
+    if v["k"] == "knr":
+        return out
+    which = case.get("c18", 0)
+    for m in MODES:
+        base = real[m]["out"]
+        if "raised" in base:
+            continue
+        hashable_in = is_hashable_desc(x)
+        wrappers = _ctx_wrappers(v, x, hashable_in)
+        # one context per case (rotating) keeps the cost linear; thorough tiers see all of them many times
+        name, wv, wx, path = wrappers[which % len(wrappers)]
+        if name == "set" and "valid" in base and not is_hashable_desc(base["valid"]):
+            continue
+        r = run_alone(wv, env, wx, m)["out"]
+        if "raised" in r:
+            out.append(f"{m}: in a one-element {name} context the call raised {r['raised']}")
+            continue
+        if ("valid" in base) != ("valid" in r):
+            out.append(f"{m}: verdict depends on the context: alone {'accepts' if 'valid' in base else 'rejects'}, inside a {name} {'accepts' if 'valid' in r else 'rejects'}")
+            continue
+        if "valid" in base:
+            inner = r["valid"]
+            if path is not None:
+                f, i = path
+                inner = inner["kvs"][i][1] if f == "kvs" else (inner["v"] if f == "v" else inner[f][i])
+            if norm(inner) != norm(base["valid"]):
+                out.append(f"{m}: payload inside a {name} differs from the validator's own payload")
+        else:
+            inv = r["invalid"]
+            if name in ("union1",):
+                cand = inv["children"]
+            elif name == "user":
+                cand = [inv]
+            else:
+                cand = inv["children"]
+            if not any(norm(c) == norm(base["invalid"]) for c in cand):
+                out.append(f"{m}: the error inside a {name} is not the validator's own error at that position")
+        # optional: accepts exactly None plus what the inner validator accepts
+        ov = {"k": "optional", "vid": 9011, "noneV": {"k": "none", "vid": 3, "coerce": None}, "inner": v}
+        if which % 3 == 0:
+            ro = run_alone(ov, env, x, m)["out"]
+            if "raised" not in ro:
+                if x["t"] == "none":
+                    if "valid" not in ro:
+                        out.append(f"{m}: Optional rejects None")
+                elif ("valid" in ro) != ("valid" in base):
+                    out.append(f"{m}: Optional[{v['k']}] and the inner validator disagree on a non-None value")
+                elif "valid" in ro and norm(ro["valid"]) != norm(base["valid"]):
+                    out.append(f"{m}: Optional changed the inner payload")
+        # refinement: an extra predicate / stricter flags only shrink, never change a payload
+        ref = refine(v, which)
+        if ref is not None:
+            rr = run_alone(ref, env, x, m)["out"]
+            if "raised" in rr:
+                continue
+            if "valid" in rr:
+                if "valid" not in base:
+                    out.append(f"{m}: refinement ({ref['_how']}) accepted a value the original rejects")
+                elif norm(rr["valid"]) != norm(base["valid"]):
+                    out.append(f"{m}: refinement ({ref['_how']}) changed the payload of a still-accepted value")
+    return out
+
+
+def refine(v: dict, which: int) -> Optional[dict]:
+    """a stricter variant of the root validator"""
+    v2 = copy.deepcopy(v)
+    k = v2["k"]
+    if k in ("scalar", "list", "set", "utuple", "map") and not v2.get("asType"):
+        ty = v2["ty"] if k == "scalar" else k
+        fn = {"f": "const", "b": which % 2 == 0}
+        if ty in ("str", "bytes", "list", "set", "utuple", "map"):
+            fn = {"f": "lenLe", "k": which % 3}
+        elif ty == "int":
+            fn = {"f": "intGt", "k": (which % 5) - 2}
+        v2["preds"] = list(v2.get("preds") or []) + [{"k": "user", "pid": 9950, "fn": fn}]
+        v2["_how"] = "extra predicate"
+        return v2
+    if k == "record":
+        if which % 2 == 0 and not v2.get("failUnknown"):
+            v2["failUnknown"] = True
+            v2["_how"] = "forbid unknown keys"
+            return v2
+        opt = [i for i, r in enumerate(v2["reqs"]) if not r]
+        if opt and v2["kind"] in ("dictAny", "typeddict"):
+            i = opt[which % len(opt)]
+            v2["reqs"][i] = True
+            if v2["kind"] == "typeddict":
+                v2["cls"] = dict(v2["cls"], id=v2["cls"]["id"] + 5000)
+            v2["_how"] = "make a key required"
+            return v2
+    return None
